@@ -143,6 +143,9 @@ def generate(rng, tier, index):
     if crafted:
         h = rng.choice([2, 3, 3, 4, 5, 5, 6, 7, 3, 8])
         w = rng.choice([3, 3, 4, 5, 5, 6, 7, 8, 2]) if h < 8 else rng.choice([2, 3])
+    big = tier == "thorough" and rng.random() < 0.2
+    if big:
+        h, w = rng.choice([(6, 6), (7, 7), (8, 8), (5, 8), (8, 5), (4, 9)])
     n = h * w
     if crafted:
         target = crafted_partition(rng, h, w)
@@ -186,6 +189,8 @@ def generate(rng, tier, index):
     else:
         sc["initial_blocks"] = random_partition(rng, h, w, rng.randint(1, n))
     steps = rng.choice([3, 8, 15, 25, 40]) if not crafted else rng.choice([2, 5, 10, 20])
+    if big:
+        steps = rng.choice([20, 40, 80])
     sc["walk"] = [rng.randrange(10**6) for _ in range(steps)]
     # bias of the walk: prefer an update kind for stretches so that merge/split/move all occur
     sc["prefer"] = [rng.choice(["any", "merge", "split", "move"]) for _ in range(steps)]
@@ -209,7 +214,7 @@ def _is_partition_json(blocks, h, w):
 def valid(sc):
     try:
         h, w = sc["h"], sc["w"]
-        if h < 1 or w < 1 or h * w > 64:
+        if h < 1 or w < 1 or h * w > 81:
             return False
         for k in ("min_num", "max_num", "min_size", "max_size"):
             if sc[k] is not None and sc[k] < 1:
@@ -257,8 +262,9 @@ def check_partition(blocks, h, w):
         if not isinstance(b, list) or len(b) == 0:
             return ("C18/not-a-partition", f"block #{bi} is empty or not a list: {b!r}")
         for c in b:
-            if not (isinstance(c, tuple) and len(c) == 2):
-                return ("C18/not-a-partition", f"block #{bi} holds {c!r}, not a (y, x) tuple")
+            if not (isinstance(c, (tuple, list)) and len(c) == 2):
+                return ("C18/not-a-partition", f"block #{bi} holds {c!r}, not a (y, x) pair")
+            c = (c[0], c[1])
             y, x = c
             if not (0 <= y < h and 0 <= x < w):
                 return ("C18/not-a-partition", f"cell {c} of block #{bi} is outside the {h}x{w} board")
@@ -269,7 +275,7 @@ def check_partition(blocks, h, w):
         missing = [(y, x) for y in range(h) for x in range(w) if (y, x) not in seen]
         return ("C18/not-a-partition", f"cells {missing[:5]} are in no block")
     for bi, b in enumerate(blocks):
-        if not _connected(b):
+        if not _connected([(c[0], c[1]) for c in b]):
             return ("C18/block-disconnected", f"block #{bi} {sorted(b)} is not orthogonally connected")
     return None
 
